@@ -118,7 +118,8 @@ class PacketReader(Harness):
     def check(self, inp, obs):
         r = obs['r']
         if isinstance(r, Exc):
-            yield 'only-documented-exit', r.type == 'SystemExit' and r.msg == 1
+            # the reader's documented way to reject a malformed packet: InvalidPacketException (before the repair: sys.exit(1))
+            yield 'only-documented-exit', r.type == 'InvalidPacketException' or (r.type == 'SystemExit' and r.msg == 1)
         else:
             yield 'pair', isinstance(r, tuple) and len(r) == 2
             t = r[0]
